@@ -87,6 +87,11 @@ package serialization
 //@   -- success exactly when the whole encoding is available and the value is within maxint (0 = no limit)
 //@   ensures err == nil <==> (old(rdRemaining(reader)) >= 1 && old(rdRemaining(reader)) >= common.varsizeAtA(rdData(ref(reader)), old(rdPos[ref(reader)])) && (maxint == 0 || common.varuintAtA(rdData(ref(reader)), old(rdPos[ref(reader)])) <= maxint))
 //@   ensures[value] err == nil ==> r0 == common.varuintAtA(rdData(ref(reader)), old(rdPos[ref(reader)]))
+//@   -- per-branch stepping stones for the merged final return
+//@   assert after "res = uint64(binary.LittleEndian.Uint16(fb[1:3]))" : res == common.varuintAtA(rdData(ref(reader)), old(rdPos[ref(reader)]))
+//@   assert after "res = uint64(binary.LittleEndian.Uint32(fb[1:5]))" : res == common.varuintAtA(rdData(ref(reader)), old(rdPos[ref(reader)]))
+//@   assert after "res = uint64(binary.LittleEndian.Uint64(fb[1:9]))" : res == common.varuintAtA(rdData(ref(reader)), old(rdPos[ref(reader)]))
+//@   assert after "res = uint64(fb[0])" : res == common.varuintAtA(rdData(ref(reader)), old(rdPos[ref(reader)]))
 //@   ensures[consumed] err == nil ==> rdPos[ref(reader)] == old(rdPos[ref(reader)]) + common.varsizeAtA(rdData(ref(reader)), old(rdPos[ref(reader)]))
 //@   ensures err != nil ==> r0 == 0
 //@   ensures rdWF(reader)
